@@ -16,7 +16,7 @@ const KIB: u64 = 1024;
 const STACKS: [(&str, u64); 5] = [("256KiB", 256 * KIB), ("1MiB", 1024 * KIB), ("8MiB", 8192 * KIB), ("64MiB", 65536 * KIB), ("unlimited", u64::MAX)];
 const ENVS: [&str; 3] = ["minimal", "+16KiB-one-variable", "+64KiB-in-1000-variables"];
 const LENS: [&str; 9] = ["1", "2", "7", "63", "1000", "4095", "alt-1-4095", "multibyte-1000", "60000"];
-const OPTS: [&str; 4] = ["none", "-n100000", "-s-huge", "-n100000+3KiB-initial"];
+const OPTS: [&str; 5] = ["none", "-n100000", "-s-huge", "-n100000+3KiB-initial", "-s131000"];
 
 fn spec(t: Tier) -> Spec {
     Spec {
@@ -106,6 +106,10 @@ fn run_point(ctx: &mut Ctx, p: &Point) -> Option<(String, String)> {
     }
     if p.opt == "-s-huge" {
         args.extend(["-s".into(), "2000000000".into()]);
+    }
+    if p.opt == "-s131000" {
+        // a user limit just below the 128 KiB default: the pointer charge must still bind
+        args.extend(["-s".into(), "131000".into()]);
     }
     args.push(vrec.clone().into());
     args.push(log.clone().into());
@@ -233,6 +237,9 @@ fn grid(t: Tier) -> Vec<(usize, usize, usize, usize)> {
             // -s above every budget with the shortest arguments (pointer overhead) at small stack limits
             v.push((0, 0, 0, 2));
             v.push((1, 0, 1, 2));
+            // -s just below the default budget with 1-byte arguments (pointers dominate)
+            v.push((1, 0, 0, 4));
+            v.push((0, 1, 0, 4));
             // the large stack limits once each with the cheapest length
             v.push((3, 0, 5, 0));
             v.push((4, 0, 5, 0));
